@@ -118,6 +118,9 @@ inductive AStep : Rings → Op → Rings → Prop
       AStep A (.xsplice l oth) ([l] :: (x :: xs) :: [oth] :: B)
   | xspliceBothEmpty {A l oth B} : Same A ([l] :: [oth] :: B) →
       AStep A (.xsplice l oth) ([l] :: [oth] :: B)
+  -- splice of a list into itself (`l.unlink_and_move_all_nodes_from_other(l)`): the head leaves its ring
+  | xspliceSelf {A l x xs B} : Same A ((l :: x :: xs) :: B) → AStep A (.xsplice l l) ([l] :: (x :: xs) :: B)
+  | xspliceSelfEmpty {A l B} : Same A ([l] :: B) → AStep A (.xsplice l l) ([l] :: B)
   -- clear / destructor of a list: every element ends up alone (fewer than 10^6 elements)
   | xclear {A l xs B} : Same A ((l :: xs) :: B) → xs.length < 1000000 →
       AStep A (.xclear l) ([l] :: (xs.map fun x => [x]) ++ B)
